@@ -3,11 +3,62 @@ import EspadaVerif.Model.Pair
 import EspadaVerif.Spec.Cards
 import EspadaVerif.Model.Eval
 import EspadaVerif.Spec.Poker
+import EspadaVerif.Model.Showdown
+import EspadaVerif.Spec.ShowdownSpec
 
 namespace Driver
 open EspadaVerif
 
 def cmpStr (lt eq : Bool) : String := if lt then "lt" else if eq then "eq" else "gt"
+
+/-- canonical text of a showdown: board, then per player `hole-code hand win`, winner_len, probability bits -/
+def showShowdown (sd : Showdown Nat) (debug : Bool) : String :=
+  let b := " ".intercalate (sd.board.map (fun c => toString c.code))
+  let ps := " ".intercalate (sd.players.map (fun p => s!"{p.hole.code}:{p.hand}:{if p.win then 1 else 0}"))
+  let wl := showRes toString (winnerLen sd debug)
+  s!"some board={b} players={ps} wl={wl} prob={sd.prob}"
+
+def pairsOf : List Nat → List (Nat × Nat)
+  | a :: b :: rest => (a, b) :: pairsOf rest
+  | _ => []
+
+/-- `showdown <debug 0/1> <prob bits> b0 b1 b2 b3 b4 p1a p1b p2a p2b ...` -/
+def opShowdown (a : List String) : String :=
+  let ns := a.map String.toNat!
+  match ns with
+  | dbg :: prob :: b0 :: b1 :: b2 :: b3 :: b4 :: rest =>
+    let board := [b0, b1, b2, b3, b4].map Card.ofCode
+    let players := (pairsOf rest).map (fun (x, y) => mkPair (Card.ofCode x) (Card.ofCode y))
+    match showdownNew players board prob with
+    | .ok (some sd) => showShowdown sd (dbg == 1)
+    | .ok none => "none"
+    | _ => "panic"
+  | _ => "bad-args"
+
+/-- oracle for `showdown` when the hole cards differ from the board and from each other (C03's domain),
+or when some hole card lies on the board (then: no showdown) -/
+def specShowdown (a : List String) : Option String :=
+  let ns := a.map String.toNat!
+  match ns with
+  | _ :: prob :: b0 :: b1 :: b2 :: b3 :: b4 :: rest =>
+    let board := [b0, b1, b2, b3, b4]
+    let pairs := pairsOf rest
+    let holes := pairs.flatMap (fun (x, y) => [x, y])
+    if !board.Nodup then none
+    else if pairs.any (fun (x, y) => x == y) then none
+    else if holes.any (fun c => board.contains c) then
+      -- the first colliding player ends the construction; earlier players must be well-formed
+      some "=none"
+    else if !holes.Nodup then none
+    else
+      let hands := pairs.map (fun (x, y) => Spec.best ([x, y, b0, b1, b2, b3, b4].map (fun c => (c / 4, c % 4))))
+      let wins := Spec.winnersOf hands
+      let ps := " ".intercalate ((pairs.zip (hands.zip wins)).map (fun ((x, y), (h, w)) =>
+        s!"{52 * min x y + max x y}:{h}:{if w then 1 else 0}"))
+      let wl := wins.countP id
+      let bs := " ".intercalate (board.map toString)
+      some s!"=some board={bs} players={ps} wl=ok {wl} prob={prob}"
+  | _ => none
 
 def runOp1 (op : String) (a : List String) : Option String :=
   let n (i : Nat) : Nat := (a.getD i "0").toNat!
@@ -44,6 +95,7 @@ def runOp1 (op : String) (a : List String) : Option String :=
   | "show_pair" => some (hex (showPair (mkPair (Card.ofCode (n 0)) (Card.ofCode (n 1)))))
   | "pair_index" =>
     some (showRes (fun c => toString c.code) ((mkPair (Card.ofCode (n 0)) (Card.ofCode (n 1))).index (n 2)))
+  | "showdown" => some (opShowdown a)
   | "eval7" =>
     let cs := a.map (fun t => Card.ofCode t.toNat!)
     some (showRes (fun i => s!"{i} {Gen.categoryNames.getD (handType i) "?"}") (eval7 cs))
@@ -96,6 +148,7 @@ def specOp1 (op : String) (a : List String) : Option String :=
       | some x, some y => if x == y then none else some s!"=ok {52 * min x y + max x y}"
       | _, _ => none
     | _ => none
+  | "showdown" => specShowdown a
   | "eval7" =>
     let cs := a.map (fun t => (t.toNat! / 4, t.toNat! % 4))
     let b := Spec.best cs
